@@ -170,6 +170,34 @@ func peerIDDecodeObligations(c *an.Check) (dec, enc, ifb, epk, bd *ssa.Function,
 		}
 		c.Require(ok, "PROVENANCE", "peer.ID.ExtractPublicKey parses the digest of its own ID", epk, "", len(uc)+len(dc), "UnmarshalPublicKey(decode([]byte(id)).digest)", "the key is not parsed from the digest of the receiver ID")
 	}
+	// canonical form: a key is handed out only when the receiver id is the id derived from that very key (one id per key:
+	// non-minimal varints and protobuf re-encodings of the same key are ids of no key)
+	cMatch := an.R("peer", "ID", "MatchesPublicKey")
+	cFromPub := an.R("peer", "", "IDFromPublicKey")
+	canonReqs := []an.Req{
+		an.AnyOf("the id re-derived from the extracted key equals the receiver",
+			an.Req{Name: "id.MatchesPublicKey(extracted key)", Holds: func(s *an.State, at ssa.Instruction) bool {
+				for _, call := range an.Calls(epk, cMatch) {
+					if an.IsParam(call.Call.Args[0], 0) && an.ResultCallTo(call.Call.Args[1], fnUnmarshalPublicKey) != nil && s.IsTrue(call) {
+						return true
+					}
+				}
+				return false
+			}},
+			an.FactReq("IDFromPublicKey(extracted key) == id", func(s *an.State, x, y ssa.Value, r an.Rel) bool {
+				if r != an.EQ {
+					return false
+				}
+				for _, pr := range [][2]ssa.Value{{x, y}, {y, x}} {
+					if call := an.ResultCallTo(pr[0], cFromPub); call != nil && an.ResultCallTo(call.Call.Args[0], fnUnmarshalPublicKey) != nil && an.IsParam(pr[1], 0) {
+						return true
+					}
+				}
+				return false
+			}))}
+	if peerIDIdentityClause {
+		c.Gate(an.GateSpec{Construct: "peer.ID.ExtractPublicKey success-return (canonical id)", Fn: epk, Sink: successReturn, Reqs: canonReqs})
+	}
 	bd = p.Func("peer", "", "IDB58Decode")
 	c.Gate(an.GateSpec{Construct: "peer.IDB58Decode success-return", Fn: bd, Sink: successReturn, Reqs: []an.Req{
 		an.CallOK("base58 decode ok", an.X("github.com/mr-tron/base58/base58", "", "Decode")), an.CallOK("IDFromBytes ok", an.R("peer", "", "IDFromBytes"))}})
